@@ -447,7 +447,25 @@ func runOnce(c Case) Result {
 					onlyDrops = false
 				}
 			}
+			// A reset that follows the complete exchange (both FINs delivered and both
+			// acknowledged) is not part of it: this stack keeps no TIME-WAIT state, so a
+			// late segment - the answer to a keep-alive probe that crossed the last ACK -
+			// meets no socket and is answered by a reset (C03's rule), with both
+			// endpoints already closed without error.
+			var finEnd [2]uint32
+			var finSent, finAcked [2]bool
 			for _, e := range p.W.Events() {
+				if k := e.Pkt; k.L4Kind == "tcp" && e.Action == "" {
+					if k.Flags&codec.FIN != 0 {
+						finSent[e.Dir], finEnd[e.Dir] = true, k.Seq+uint32(len(k.Payload))+1
+					}
+					if o := 1 - e.Dir; k.Flags&codec.ACK != 0 && k.Flags&codec.RST == 0 && finSent[o] && k.Ack == finEnd[o] {
+						finAcked[o] = true
+					}
+				}
+				if finAcked[0] && finAcked[1] {
+					break
+				}
 				if onlyDrops && e.Pkt.L4Kind == "tcp" && e.Pkt.Flags&codec.RST != 0 {
 					res.Fail = evid.Failf("close-rst", "RST on the wire although no packet of the closing exchange was lost\n%s", trace())
 					return res
